@@ -158,7 +158,7 @@ class TrackWorld(World):
         if not any(ops[o] for o in cls.FALSIFIERS[focus]):
             ops[cls.FALSIFIERS[focus][0]] = 2
         return {"nsteps": r.choice([5, 10, 20, 40, 80, 120]), "sessions": r.choice([1, 1, 2, 3]),
-                "fam": w, "ops": ops, "size_bias": r.choice(["tiny", "pow2", "any"]),
+                "fam": w, "ops": ops, "size_bias": r.choice(["tiny", "pow2", "any"] * 5 + ["big"]),
                 "n_instants": r.choice([1, 2, 4, 6]), "calendar": r.random() < 0.3,
                 "with_features": r.random() < (0.3 if focus == "C04" else 0.6),
                 "fork_rate": r.choice([0, 0.02, 0.08]), "names": list(NAMES[: r.choice([2, 3, 4, 4])]),
@@ -254,7 +254,7 @@ class TrackWorld(World):
         if b == "pow2":
             return r.choice([1, 2, 3, 4, 7, 8, 9, 15, 16, 17])
         if b == "big":
-            return r.choice([17, 31, 32, 33, 40, 63, 64, 65])
+            return r.choice([17, 31, 32, 33, 40, 63, 64, 65, 100, 130])
         return r.randint(0, 17)
 
     def _gen_value(self, r, n):
@@ -1235,6 +1235,8 @@ class TrackWorld(World):
         if out in RESERVED:
             raise Skip()
         real_op = getattr(Operator, opr)
+        if opr == "CORRELATOR" and n > 40:
+            raise Skip()
         if "POWER" in opr:
             # integer columns raised to integer powers are exact big-integer arithmetic: 823543 ** 823543
             # takes seconds and is no hang of the library; powers are applied to float columns only
@@ -1308,6 +1310,8 @@ class TrackWorld(World):
         call); what is checked is that nothing else changes."""
         from tracklib.core import Operator
         t, m = self._sess(st)
+        if len(m["obs"]) > 40:
+            raise Skip()            # n shifted correlations of n values each: quadratic, not for the long tracks
         if len(m["obs"]) < 2 or st["in1"] not in m["names"] or st["in2"] not in m["names"] \
                 or st["out"] in RESERVED or not self._input_ok(m, st["in1"]) or not self._input_ok(m, st["in2"]):
             raise Skip()
